@@ -1,4 +1,5 @@
 """Shared facts about Connection::listen used by C01, C02, C03, C07, C10, C14, C15."""
+import re
 from ..lib import *  # noqa: F401,F403
 from .. import events, flow
 
@@ -223,3 +224,93 @@ def leaf_values(e):
     if e2[0] == "variant":
         return [("variant", b, e2[2]) for b in leaf_values(e2[1])]
     return [e2]
+
+
+class KeepAliveMode(object):
+    """receive_packet's keep-alive parameter, as a two-valued mode whichever type spells it: `bool` on the pinned tree, possibly
+    a small fieldless enum after a refactoring. A value "enables" if the Keep Alive send in receive_packet is reachable with it;
+    call sites are classified by the value they pass (events `rp:true` / `rp:false`)."""
+
+    def __init__(self, ctx):
+        self.ctx = ctx
+        self.rb = ctx.body(RECV, required=False)
+        self.kind = None
+        self.values = []
+        self.enabling = set()
+        self.cmp_calls = {}
+        if self.rb is None:
+            return
+        rb = self.rb
+        an = ctx.an(rb)
+        self.flag = ctx.captured_flag(rb, "keep_alive")
+        # type of the parameter: from the fn body (second parameter)
+        fnb = ctx.prog.bodies.get(re.sub(r"(::\{closure#\d+\})+$", "", rb.key))
+        ty = fnb.locals[2].get("s", "") if fnb is not None and len(fnb.locals) > 2 else "bool"
+        if ty == "bool":
+            self.kind = "bool"
+            self.values = [True, False]
+        else:
+            adt = ctx.prog.adts.get(ty)
+            if adt is not None and adt.get("kind") == "Enum" and all(not v.get("fields") for v in adt.get("variants", [])) and len(adt["variants"]) == 2:
+                self.kind = "enum"
+                self.names = [v["name"] for v in adt["variants"]]
+                self.values = [("tag", 0), ("tag", 1)]
+                # comparisons of the parameter with a variant literal
+                for bb, t in rb.calls():
+                    nm = (cname(t) or dname(t)).split("::")[-1]
+                    if nm in ("eq", "ne") and len(t.args) == 2 and not rb.is_noise(t):
+                        a = [flow.strip(arg(an, bb, t, k)) for k in range(2)]
+                        par = [x for x in a if x[0] == "field" and flow.strip(x[1])[0] == "env" and x[2] == self.flag[1]]
+                        lit = [x for x in a if x[0] == "agg" and x[1].rsplit("::", 1)[0] == ty]
+                        if par and lit:
+                            self.cmp_calls[bb] = (self.names.index(lit[0][1].rsplit("::", 1)[1]), nm == "ne")
+        if self.kind is None:
+            return
+        ev = events.extract(ctx, rb, _mode=False)
+        sends = [bb for bb, es in ev.items() for _, e, _ in es if e == "send:configuration::clientbound::KeepAlive"]
+        for v in self.values:
+            g = self.graph(v)
+            reach = set(g.bb(n) for n in g.reachable())
+            if any(bb in reach for bb in sends):
+                self.enabling.add(self._key(v))
+
+    @staticmethod
+    def _key(v):
+        return v[1] if isinstance(v, tuple) else v
+
+    def graph(self, value):
+        rb = self.rb
+        extra = [self.flag]
+        callhook = None
+        if self.kind == "enum":
+            for bb in self.cmp_calls:
+                t = rb.blocks[bb].term
+                if t.dest is not None and t.dest.is_local():
+                    extra.append(t.dest.local)
+
+            def callhook(bb, t, value=value):
+                c = self.cmp_calls.get(bb)
+                if c is None:
+                    return None
+                return (c[0] == value[1]) != c[1]
+        return self.ctx.graph_with(rb, extra, pinned={self.flag: value}, callhook=callhook)
+
+    def on(self):
+        """graph for an enabling value / a disabling value"""
+        vs = [v for v in self.values if self._key(v) in self.enabling]
+        return self.graph(vs[0]) if vs else None
+
+    def off(self):
+        vs = [v for v in self.values if self._key(v) not in self.enabling]
+        return self.graph(vs[0]) if vs else None
+
+    def classify(self, e):
+        """'true' / 'false' / '?' for the argument expression of a receive_packet call"""
+        x = flow.strip(e)
+        if self.kind == "bool":
+            if x[0] == "const" and isinstance(x[2], bool):
+                return "true" if x[2] in self.enabling else "false"
+            return "?"
+        if self.kind == "enum" and x[0] == "agg" and x[1].rsplit("::", 1)[-1] in self.names:
+            return "true" if self.names.index(x[1].rsplit("::", 1)[-1]) in self.enabling else "false"
+        return "?"
